@@ -3,7 +3,12 @@
    Lines:  B|<hex>                      binary keyset through the cleartext and no-secrets readers
            J|<json hex>|<bin hex or X>  JSON keyset (bin = the same message in binary, X = not parseable)
            M|<bin hex>|<nil injections> proto-message API (nil keyset / nil key / nil key data)
-           E|<kek>|<ad>|<hex>           encrypted keyset, AES-GCM key-encryption key *)
+           E|<kek>|<ad>|<hex>           encrypted keyset, AES-GCM key-encryption key
+           P|<KeyTemplate hex>          protoserialization.ParseParameters on the decoded template
+   The readers are the x-readers of model/UntrustedParams.v: every registered
+   key type is decided by the model (PRF-based deriver keys, ECIES keys with
+   the DEM template parsed by its own parameters parser, composite keys with
+   the nested parsers run first). *)
 let curve_name c = match int_of_n c with 2 -> "p256" | 3 -> "p384" | 4 -> "p521" | 5 -> "x25519" | _ -> failwith "curve"
 let rec take_l k l = if k = 0 then [] else match l with [] -> [] | x :: t -> x :: take_l (k - 1) t
 let rec drop_l k l = if k = 0 then l else match l with [] -> [] | _ :: t -> drop_l (k - 1) t
@@ -35,18 +40,63 @@ let std : stdlib = {
 }
 
 let st_str s = match int_of_n s with 1 -> "E" | 2 -> "D" | 3 -> "X" | _ -> "?"
-let shape (h : entry list) : string =
+
+(* the observable form of a parameters object (harness/p/c14/params.go renderParams) *)
+let dn = dec_of_n
+let dem_render c = match int_of_n c with
+  | 1 -> "AesGcm(16,12,16,3)" | 2 -> "AesGcm(32,12,16,3)" | 3 -> "AesSiv(64,3)" | 4 -> "XChaCha(3)"
+  | 5 -> "AesCtrHmac(16,32,16,16,3,3)" | 6 -> "AesCtrHmac(32,32,16,32,3,3)" | _ -> failwith "dem"
+let nm name l = name ^ "(" ^ String.concat "," l ^ ")"
+let rec render_params (p : params) : string =
+  match p with
+  | QAesGcm (k, v) -> nm "AesGcm" [dn k; "12"; "16"; dn v]
+  | QAesGcmSiv (k, v) -> nm "AesGcmSiv" [dn k; dn v]
+  | QAesCtrHmac (aes, hk, iv, tag, hash, v) -> nm "AesCtrHmac" [dn aes; dn hk; dn iv; dn tag; dn hash; dn v]
+  | QChaCha v -> nm "ChaCha" [dn v]
+  | QXChaCha v -> nm "XChaCha" [dn v]
+  | QXAesGcm (salt, v) -> nm "XAesGcm" [dn salt; dn v]
+  | QAesSiv (k, v) -> nm "AesSiv" [dn k; dn v]
+  | QHmac (k, tag, hash, v) -> nm "Hmac" [dn k; dn tag; dn hash; dn v]
+  | QAesCmac (k, tag, v) -> nm "AesCmac" [dn k; dn tag; dn v]
+  | QAesCmacPrf k -> nm "AesCmacPrf" [dn k]
+  | QHkdfPrf (k, hash, salt) -> nm "HkdfPrf" [dn k; dn hash; hexs salt]
+  | QHmacPrf (k, hash) -> nm "HmacPrf" [dn k; dn hash]
+  | QEcdsa (curve, hash, enc, v) -> nm "Ecdsa" [dn curve; dn hash; dn enc; dn v]
+  | QEd25519 v -> nm "Ed25519" [dn v]
+  | QRsaPkcs1 (bits, hash, e, v) -> nm "RsaPkcs1" [dn bits; dn hash; dn e; dn v]
+  | QRsaPss (bits, hash, e, salt, v) -> nm "RsaPss" [dn bits; dn hash; dn hash; dn e; dn salt; dn v]
+  | QMlDsa (inst, v) -> nm "MlDsa" [dn inst; dn v]
+  | QSlhDsa (hash, ks, sg, v) -> nm "SlhDsa" [dn hash; dn ks; dn sg; dn v]
+  | QComposite (alg, inst, v) -> nm "Composite" [dn alg; dn inst; dn v]
+  | QEcies (curve, hash, fmt, dem, v, salt) -> nm "Ecies" [dn curve; dn hash; dn fmt; dem_render dem; dn v; hexs salt]
+  | QHpke (kem, kdf, aead, v) -> nm "Hpke" [dn kem; dn kdf; dn aead; dn v]
+  | QStreamGcmHkdf (ikm, derived, hash, seg) -> nm "StreamGcmHkdf" [dn ikm; dn derived; dn hash; dn seg]
+  | QStreamCtrHmac (ikm, derived, hkdf, hash, tag, seg) -> nm "StreamCtrHmac" [dn ikm; dn derived; dn hkdf; dn hash; dn tag; dn seg]
+  | QJwtHmac (k, alg, v) -> nm "JwtHmac" [dn k; dn alg; dn v]
+  | QJwtEcdsa (alg, v) -> nm "JwtEcdsa" [dn alg; dn v]
+  | QJwtRsa (pss, alg, bits, e, v) -> nm (if pss then "JwtRsaPss" else "JwtRsaPkcs1") [dn alg; dn bits; dn e; dn v]
+  | QJwtMlDsa (alg, v) -> nm "JwtMlDsa" [dn alg; dn v]
+  | QDeriver (prf, d) -> nm "Deriver" [render_params prf; render_params d]
+
+let prf_render (d : pkd) : string =
+  match d with
+  | PHkdfPrf (hash, kl) -> nm "hkdf" [dn kl; dn hash]
+  | PHmacPrf (hash, kl) -> nm "hmacprf" [dn kl; dn hash]
+  | PAesCmacPrf kl -> nm "cmacprf" [dn kl]
+  | _ -> "?"
+
+let shape (h : xentry list) : string =
   "h[" ^ String.concat "," (List.map (fun e ->
-    let p = if not e.emod then "~" else
-      (match prim_ok std e.ekey with Ok true -> "+" | Ok false -> "-" | _ -> "!") in
-    Printf.sprintf "%s.%s.%s.%s.%d.%s" (dec_of_n e.eid) (st_str e.estatus) (if e.eprim then "1" else "0")
-      (match shown_req e with None -> "R" | Some r -> dec_of_n r) (int_of_n (shown_prefix e)) p) h) ^ "]"
+    let flag = (match prim_ok_x std e.xkey with Ok true -> "+" | Ok false -> "-" | _ -> "!") in
+    let p = (match e.xkey with
+      | XBase _ -> if not (modelled_url { kd_url = e.xurl; kd_value = e.xvalue; kd_mat = e.xmat }) then "~" else flag
+      | XDeriver (prf, dp) -> flag ^ "{" ^ prf_render prf ^ ";" ^ render_params dp ^ "}") in
+    Printf.sprintf "%s.%s.%s.%s.%d.%s" (dec_of_n e.xid) (st_str e.xstatus) (if e.xprim then "1" else "0")
+      (match xshown_req e with None -> "R" | Some r -> dec_of_n r) (int_of_n (xshown_prefix e)) p) h) ^ "]"
 let out = function Ok h -> shape h | Err -> "err" | Panic -> "PANIC-MODEL"
 
 let both_bin (b : n list) : string =
-  match decode_keyset b with
-  | Some ks when any_unmodelled ks -> "U"
-  | _ -> "c:" ^ out (read std b) ^ "|n:" ^ out (read_no_secrets std b)
+  "c:" ^ out (xread std b) ^ "|n:" ^ out (xread_no_secrets std b)
 
 let inject (ks : keyset option) (inj : string) : keyset option =
   List.fold_left (fun ks i ->
@@ -70,20 +120,22 @@ let handle line =
   | ["M"; bin; inj; _] ->
     (match decode_keyset (unhex bin) with
      | None -> "c:err|n:err"
-     | Some ks when any_unmodelled ks -> "U"
      | Some ks ->
        let ks' = inject (Some ks) inj in
-       "c:" ^ out (read_proto std ks') ^ "|n:" ^ out (handle_no_secrets std ks'))
+       "c:" ^ out (xread_proto std ks') ^ "|n:" ^ out (xhandle_no_secrets std ks'))
   | ["E"; kek; ad; enc; _] ->
     let kek = unhex kek in
     let dec (ct : n list) (ad : n list) : n list option =
       if List.length ct < 28 then None
       else ocall_opt "gcm_open" [] [kek; take_l 12 ct; ad; drop_l 12 ct] in
     let enc = unhex enc and ad = unhex ad in
-    let unm = (match decode_encrypted enc with
-      | None -> false
-      | Some ct -> (match dec ct ad with
-        | None -> false
-        | Some pt -> (match decode_keyset pt with Some ks -> any_unmodelled ks | None -> false))) in
-    if unm then "U" else "e:" ^ out (read_encrypted std dec enc ad)
+    "e:" ^ out (xread_encrypted std dec enc ad)
+  | ["P"; t; _] ->
+    (match decode_template (unhex t) with
+     | None -> "p:err"
+     | Some tm ->
+       (match parse_params_full tm with
+        | Ok p -> "p:" ^ render_params p
+        | Err -> "p:err"
+        | Panic -> "PANIC-MODEL"))
   | _ -> failwith "case"
